@@ -324,6 +324,72 @@ def C19(tier, seed):
     res.assumptions = ["TLC/SANY, CommunityModules", "that each variant is also what the specification says is decided by the property-specific checks on the same events (both widths alternate there)", "guard pages / ASan make an over-run an event"]
     return res
 
+# ------------------------------------------------------------------ C20
+def writable_symbol_audit(so):
+    """OBJECT symbols of the built library that live in a writable, non-RELRO section.  Returns (listing, offenders)."""
+    sec = {}
+    for l in vlib.sh(["readelf", "-SW", so]).stdout.splitlines():
+        m = __import__("re").match(r"\s*\[\s*(\d+)\]\s+(\S+)\s+(\S+)\s+[0-9a-f]+\s+[0-9a-f]+\s+[0-9a-f]+\s+\S+\s+(\S*)", l)
+        if m: sec[m.group(1)] = (m.group(2), m.group(4))
+    listing, offenders = [], []
+    allow = {"defaultMemoryManager": "the default manager's table of function pointers: initialised statically, only ever read",
+             "completed.0": "C runtime (crtbegin) flag, not library code"}
+    for l in vlib.sh(["readelf", "-sW", "--dyn-syms", so]).stdout.splitlines() + vlib.sh(["readelf", "-sW", so]).stdout.splitlines():
+        f = l.split()
+        if len(f) < 8 or f[3] != "OBJECT" or not f[6].isdigit(): continue
+        name, flags = sec.get(f[6], ("?", ""))
+        # data of the library itself: .data / .bss / thread-local data; not the linker's own tables (.got, .dynamic, .init_array, ...) and not RELRO constants
+        if "W" not in flags or name.startswith(".data.rel.ro") or not (name in (".data", ".bss", ".tdata", ".tbss") or name.startswith(".data.") or name.startswith(".bss.")): continue
+        if f[2] in ("0", "0x0"): continue
+        sym = f[7].split("@")[0]
+        rec = "%s (%s bytes, %s)" % (sym, f[2], name)
+        if rec in listing: continue
+        listing.append(rec)
+        if sym not in allow: offenders.append(rec)
+    return listing, offenders
+
+def C20(tier, seed):
+    res = Result("C20", "model_checking")
+    out = rundir("C20")
+    T = tier == "thorough"
+    m = vlib.model_check("MC_Threads", cfg="MC_Threads_t.cfg" if T else "MC_Threads.cfg", timeout=3000)
+    res.add_model(m, "MC_Threads (all interleavings of the read/write programs of %s: NoRace, ResultsSequential, NoGlobalWrite, NoInputWrite)" % ("2 threads x up to 2 calls" if T else "3 threads x 1 call drawn from 11 call kinds"))
+    # non-vacuity: with each feared deviation switched on TLC must find the racing interleaving
+    devs = ["ShallowCopyPath", "StaticScratch", "MaskQueryInPlace", "CachedDefaultManager"]
+    found = {}
+    for d in devs:
+        r = vlib.tlc("MC_Threads", "MC_Threads_dev_%s.cfg" % d, timeout=1200)
+        found[d] = "is violated" in r["out"]
+        if not found[d]: raise Infra("MC_Threads with deviation %s did not produce a race: the model cannot see what it is meant to see\n%s" % (d, r["out"][-1500:]))
+    res.coverage["deviation_models_violate"] = found
+    # conformance 1: shared inputs read-only, results equal the call run alone (ASan build), validated by TLC
+    exe = vlib.build("asan")
+    h = vlib.run_harness(exe, ["threads", "--threads", "12", "--n", "30000" if T else "2500", "--seed", str(seed), "--tier", tier], out, "threads", timeout=3000)
+    res.violations += harness_crash_violations(h, "C20"); res.violations += [v for v in h["violations"] if v.get("prop") == "C20"]
+    res.add_stats(vlib.merge_stats(h["stats"]))
+    res.violations += validate_stream(res, "Trace_Threads", out, "threads", "C20")
+    # conformance 2: the same workload under ThreadSanitizer (a data race is an abort)
+    exe_t = vlib.build("tsan")
+    h = vlib.run_harness(exe_t, ["threads", "--threads", "12", "--n", "60000" if T else "4000", "--log", "0", "--seed", str(seed + 1), "--tier", tier], out, "tsan", timeout=3000,
+                         extra_env={"TSAN_OPTIONS": "halt_on_error=1:exitcode=66:report_signal_unsafe=0"})
+    res.violations += harness_crash_violations(h, "C20"); res.violations += [v for v in h["violations"] if v.get("prop") == "C20"]
+    res.add_stats(vlib.merge_stats(h["stats"]))
+    # conformance 3: the library's own writable segment mapped read-only while every call of the table runs
+    exe_s = vlib.build("shared")
+    h = vlib.run_harness(exe_s, ["globals", "--seed", str(seed), "--tier", tier], out, "globals", timeout=900)
+    res.violations += harness_crash_violations(h, "C20"); res.violations += [v for v in h["violations"] if v.get("prop") == "C20"]
+    res.add_stats(vlib.merge_stats(h["stats"]))
+    listing, offenders = writable_symbol_audit(os.path.join(os.path.dirname(exe_s), "liburiparser.so"))
+    res.coverage["writable_library_symbols"] = listing
+    for o in offenders:
+        res.violations.append(dict(prop="C20", why="the library has writable global or static data: " + o, case=o))
+    res.coverage["rule"] = ("model: every interleaving of the micro-step programs (reads / writes of shared inputs, library globals, private objects) of the call kinds; "
+        "conformance: a table of ~2,000 distinct calls over all function families (both widths) on shared inputs held in a read-only arena is evaluated by one thread, then by 12 threads at once in seeded random order (results validated by TLC against the result of the call run alone; arena compared byte for byte), "
+        "again under ThreadSanitizer, and once with the writable segment of liburiparser.so mapped read-only; symbols in writable non-RELRO sections are listed and must be the allow-listed manager table. non-trivial = every call; distinct by (function, inputs, width)")
+    res.assumptions = ["TLC/SANY", "spec/UriThreads.tla: the footprints (which objects a call may read / write) were read from the code; the conformance runs observe that real calls stay inside them (read-only mappings make any write to a shared input or a library global a fault on every schedule)",
+                       "ThreadSanitizer for the data-race clause on the schedules that happened; libc malloc is thread-safe"]
+    return res
+
 def _simple(pid, tier, seed, model, model_cfg_q, model_cfg_t, model_note, driver, trace, rule, assumptions, level="model_checking", extra_args=(), also=()):
     res = Result(pid, level)
     out = rundir(pid)
@@ -398,7 +464,7 @@ def C13(tier, seed):
         "freeing URI members twice more must release nothing; all 31 incomplete managers x the 9 manager-taking functions must be rejected with the dedicated code before anything is allocated. non-trivial = every case; distinct by (operation, inputs, mask, manager kind)",
         ["TLC/SANY, CommunityModules", "spec/UriLedger.tla", "recording manager and libc interposition of the harness"])
 
-CHECKS = {"C13": C13, "C14": C14, "C15": C15, "C16": C16, "C17": C17, "C18": C18, "C01": C01, "C02": C02, "C03": C03, "C04": C04, "C05": C05, "C06": C06, "C08": C08, "C07": C07, "C09": C09, "C10": C10, "C11": C11, "C12": C12, "C19": C19}
+CHECKS = {"C13": C13, "C14": C14, "C15": C15, "C16": C16, "C17": C17, "C18": C18, "C01": C01, "C02": C02, "C03": C03, "C04": C04, "C05": C05, "C06": C06, "C08": C08, "C07": C07, "C09": C09, "C10": C10, "C11": C11, "C12": C12, "C19": C19, "C20": C20}
 
 # ------------------------------------------------------------------ known findings triage, replay
 def triage(pid, violations, kf):
